@@ -100,6 +100,8 @@ type Interp struct {
 	// linear form over the oracle's symbols.
 	Oracle    FetchOracle
 	LinOfBits func(st *State, v bitdom.Vec) (lin.Form, bool)
+	// BitAssumptions: value-range assumptions made by the bit-level transfer functions.
+	BitAssumptions map[string]bool
 	// DeadOps: positions of bit operations whose result is constant although their operand is not (rule A5).
 	DeadOps  map[token.Pos]string
 	indConds map[string]*Cond
@@ -259,6 +261,7 @@ type State struct {
 	loopIndex      map[ssa.Value]bool
 	Events         []Event
 	pfx            string                // call-frame prefix of names (InlineCalls)
+	aborted        bool                  // the path is abandoned (an oracle could not serve it)
 	Defs           map[string]bitdom.Vec // TrackBits: opaque symbol -> its bits (copy-on-write)
 	defsOwned      bool
 	noZeroTripFork bool
@@ -1077,6 +1080,9 @@ func (ip *Interp) explore(f *ssa.Function, st *State, sum *Summary, onReturn fun
 	}
 	runFrom = func(st *State, b *ssa.BasicBlock, start int) {
 		for i := start; i < len(b.Instrs); i++ {
+			if st.aborted {
+				return
+			}
 			if sum.Paths > ip.MaxPaths {
 				sum.Truncated = true
 				return
@@ -1496,7 +1502,7 @@ func (st *State) runHeader(s2 *State, b, from *ssa.BasicBlock, li *loopInfo, exa
 			}
 			continue
 		}
-		name := "%" + f.Name() + ":" + phi.Name() + "@" + b.String()
+		name := s2.pfx + "%" + f.Name() + ":" + phi.Name() + "@" + b.String()
 		v := ip.symbolic(phi.Type(), name, s2)
 		if v.K == KInt {
 			if lb, ok := staticLowerBound(phi, map[ssa.Value]bool{}); ok {
@@ -2199,3 +2205,6 @@ func (ip *Interp) Explore(f *ssa.Function, setup func(st *State), onReturn func(
 
 // Outcome snapshots a return state as an outcome (for clients of Explore).
 func (st *State) Outcome(f *ssa.Function, res []Val) *Outcome { return st.makeOutcome(f, res) }
+
+// Abort abandons the current path: nothing after the current instruction is interpreted.
+func (st *State) Abort() { st.aborted = true }
